@@ -280,7 +280,9 @@ func TestVerif(t *testing.T) {
 		os.WriteFile(job.Status, []byte(fmt.Sprintf("%s\n", desc)), 0644)
 		os.WriteFile(job.Status+".plan", plan, 0644)
 		ch := simrt.NewChoices(seed ^ 0x5eed)
+		simrt.TakeDeadlock()
 		out := sc.Exec(t, job.Prop, plan, ch, false)
+		noteDeadlock(job.Prop, out)
 		res.Runs++
 		res.Scenarios[sc.Name]++
 		res.Steps += out.Steps
@@ -397,7 +399,9 @@ func replayFile(t *testing.T, job *Job, res *Result) {
 	if len(rp.Choices) == 0 && rp.ChoiceSeed != 0 {
 		chs = simrt.NewChoices(rp.ChoiceSeed)
 	}
+	simrt.TakeDeadlock()
 	out := sc.Exec(t, rp.Prop, rp.Plan, chs, true)
+	noteDeadlock(rp.Prop, out)
 	res.Runs = 1
 	res.Steps = out.Steps
 	res.Scenarios[sc.Name] = 1
@@ -415,6 +419,20 @@ func replayFile(t *testing.T, job *Job, res *Result) {
 	}
 }
 
+// noteDeadlock turns a circular wait for program mutexes found by the
+// scheduler (tasks waiting for ten simulated minutes for mutexes nobody
+// releases) into a violation of the property being checked: whatever the
+// property promises, the collector has stopped delivering it.
+func noteDeadlock(prop string, out *RunOut) {
+	d := simrt.TakeDeadlock()
+	if d == "" || out == nil {
+		return
+	}
+	out.Violations = append([]Violation{{Prop: prop, Class: "deadlock", Key: "tasks wait for mutexes for ever",
+		Msg: "no task can run any more and these tasks wait for a program mutex that is never released: " + d}}, out.Violations...)
+	out.Inconclusive = ""
+}
+
 // minimise shrinks plan then schedule while the same violation class recurs.
 func minimise(t *testing.T, sc *Scenario, job *Job, rp Replay) Replay {
 	budget := time.Duration(job.MinBudget) * time.Second
@@ -424,7 +442,9 @@ func minimise(t *testing.T, sc *Scenario, job *Job, rp Replay) Replay {
 	deadline := time.Now().Add(budget)
 	class := rp.Violation.Class
 	try := func(plan []byte, ch []simrt.Choice) (*RunOut, bool) {
+		simrt.TakeDeadlock()
 		out := sc.Exec(t, job.Prop, plan, simrt.NewReplay(ch), false)
+		noteDeadlock(job.Prop, out)
 		for _, v := range out.Violations {
 			if v.Class == class {
 				return out, true
